@@ -498,6 +498,16 @@ impl<'a> Lifter<'a> {
                         Err(format!("construct outside rule list (lift): field `{name}` of type {}", base.ty))
                     }
                     syn::Member::Unnamed(i) => {
+                        // `.k` of an opaque record (a tuple struct): the declared extern `field_k(T)`
+                        if !base.ty.starts_with('(') {
+                            let key = format!("field_{}", i.index);
+                            if let Some((ptys, rty)) = self.reg.fns.get(&key).cloned() {
+                                if ptys.len() == 1 && ptys[0] == base.ty {
+                                    return Ok(v(format!("crate::{key}({})", base.text), &rty));
+                                }
+                            }
+                            return Err(format!("construct outside rule list (lift): tuple field .{} of type {}", i.index, base.ty));
+                        }
                         // tuple field: type from "(a, b)" text
                         let inner = base.ty.trim_start_matches('(').trim_end_matches(')');
                         let parts = split_top(inner);
@@ -521,6 +531,17 @@ impl<'a> Lifter<'a> {
                         let j = self.expr(&tp.elems[1])?;
                         let et = if a.ty == "RArr2" { "real" } else { "Rec" };
                         return Ok(v(format!("({}.at)({}, {})", a.text, i.text, j.text), et));
+                    }
+                }
+                // a fixed-size array of records is a tuple: `x[0]` is `x.0`
+                if a.ty.starts_with('(') {
+                    if let Expr::Lit(syn::ExprLit { lit: syn::Lit::Int(n), .. }) = &*ix.index {
+                        let k: usize = n.base10_parse().map_err(|_| "index".to_string())?;
+                        let inner = a.ty.trim_start_matches('(').trim_end_matches(')');
+                        let parts = split_top(inner);
+                        if let Some(t) = parts.get(k) {
+                            return Ok(v(format!("{}.{k}", a.text), t.trim()));
+                        }
                     }
                 }
                 let i = self.expr(&ix.index)?;
@@ -691,6 +712,17 @@ impl<'a> Lifter<'a> {
                 let parts = split_top(inner);
                 let mut out = Vec::new();
                 for (k, el) in t.elems.iter().enumerate() {
+                    let pt = parts.get(k).map(|s| s.trim().to_string()).unwrap_or_else(|| "?".into());
+                    out.push(self.pattern(el, &pt)?);
+                }
+                Ok(format!("({})", out.join(", ")))
+            }
+            syn::Pat::Slice(sl) if ty.trim().starts_with('(') => {
+                // `[a, b]` on a fixed-size array of records (a tuple)
+                let inner = ty.trim().strip_prefix('(').and_then(|s| s.strip_suffix(')')).unwrap_or("");
+                let parts = split_top(inner);
+                let mut out = Vec::new();
+                for (k, el) in sl.elems.iter().enumerate() {
                     let pt = parts.get(k).map(|s| s.trim().to_string()).unwrap_or_else(|| "?".into());
                     out.push(self.pattern(el, &pt)?);
                 }
@@ -1493,7 +1525,11 @@ impl<'a> Lifter<'a> {
             _ => {}
         }
         // other functions of the unit / externs: called by last segment
-        let key = if path == "Self" { "Self_ctor".to_string() } else if first == "Self" || first == "State" || p.path.segments.len() == 1 { last.clone() } else { path.replace("::", "_") };
+        // `Type::f` inside `impl Type` is `Self::f`
+        let first_is_self_ty = p.path.segments.len() == 2
+            && (self.self_ty.as_deref() == Some(first.as_str())
+                || (self.reg.types.get(&first).is_some() && (self.reg.types.get(&first) == self.self_ty.as_ref() || self.reg.types.get(&first) == self.reg.types.get("Self"))));
+        let key = if path == "Self" { "Self_ctor".to_string() } else if first == "Self" || first == "State" || p.path.segments.len() == 1 { last.clone() } else if first_is_self_ty && !self.reg.fns.contains_key(&path.replace("::", "_")) { last.clone() } else { path.replace("::", "_") };
         if let Some((ptys, rty)) = self.reg.fns.get(&key).cloned() {
             let mut args = Vec::new();
             for a in &c.args {
